@@ -704,7 +704,10 @@ def discharge_call(prog, ctx, fk, b, i, t, n, R, roles, reph_fns, sub13, sub15, 
                 if callee_name(t2).endswith("convert_regex_into"):
                     src = t2
             if src is not None:
-                return True, "dependency contract: okkhor's regex fragments are parenthesised groups, valid in any concatenation (DESIGN §8)"
+                # valid syntax is not enough: every typed letter contributes an alternation group and the compiled program grows faster than the
+                # word; regex's default size limit (10 MiB) is exceeded by a word of about 1 500 keys and Regex::new returns CompiledTooBig
+                return False, ("the pattern okkhor builds for the typed word is syntactically valid in any concatenation, but its compiled size is not bounded: a long "
+                               "enough word (≈ 1 500 keys, e.g. `nggh` × 364) exceeds the regex engine's size limit and this unwrap panics (CompiledTooBig)")
             return False, "Regex::new on a pattern of unknown shape"
         # the bundled-data loader: Data's constructor and its private stages (associated functions of Data taking only the configuration)
         fdat = prog.fns.get(fk) or {}
